@@ -105,6 +105,42 @@ func FailAt(k int) []Step {
 	return []Step{{k, "ok"}, {0, "fail"}}
 }
 
+// SeekableChunked is a well-behaved io.ReadSeeker that hands out at most Chunk bytes per Read (a file on a slow
+// medium, a buffered network file): being seekable says nothing about the size of the reads.
+type SeekableChunked struct {
+	Data  []byte
+	Chunk int
+	pos   int64
+}
+
+func (s *SeekableChunked) Read(p []byte) (int, error) {
+	if s.pos >= int64(len(s.Data)) {
+		return 0, io.EOF
+	}
+	n := len(p)
+	if n > s.Chunk {
+		n = s.Chunk
+	}
+	n = copy(p[:n], s.Data[s.pos:])
+	s.pos += int64(n)
+	return n, nil
+}
+
+func (s *SeekableChunked) Seek(offset int64, whence int) (int64, error) {
+	switch whence {
+	case io.SeekStart:
+	case io.SeekCurrent:
+		offset += s.pos
+	case io.SeekEnd:
+		offset += int64(len(s.Data))
+	}
+	if offset < 0 {
+		return 0, errors.New("iox: negative position")
+	}
+	s.pos = offset
+	return offset, nil
+}
+
 // FailAtWith is FailAt with the given failing kind.
 func FailAtWith(k int, kind string) []Step {
 	if k == 0 {
